@@ -31,6 +31,7 @@ pub struct Profile {
     pub p_reorder: f64,
     pub p_inbound: f64,
     pub p_garbage: f64,
+    pub p_bad_connack: f64,
     pub p_dead_call: f64,
     pub p_invalid_props: f64,
     pub p_broker_disconnect: f64,
@@ -72,6 +73,7 @@ impl Default for Profile {
             p_reorder: 0.3,
             p_inbound: 0.25,
             p_garbage: 0.0,
+            p_bad_connack: 0.0,
             p_dead_call: 0.3,
             p_invalid_props: 0.0,
             p_broker_disconnect: 0.01,
@@ -136,9 +138,25 @@ pub struct RandomDirector {
     downgrade: bool,
     force_drop: bool,
     reconnected_once: bool,
+    /// probes run before the benign drain: PUBREL sweep (reveals the pending inbound QoS 2
+    /// identifiers) and a QoS 1 publish burst until refusal (reveals the send quota)
+    pub probe: bool,
+    probe_step: u32,
+    burst_done: bool,
 }
 
 impl RandomDirector {
+    /// A director that starts directly in the benign continuation and whose broker claims to
+    /// hold the session (it answers everything the client replays).
+    pub fn benign_tail(seed: u64, rx: usize) -> Self {
+        let mut p = Profile::default();
+        p.calls = 0;
+        let mut d = Self::new(seed, p, rx, false);
+        d.broker.has_session = true;
+        d.probe = true;
+        d
+    }
+
     pub fn new(seed: u64, p: Profile, rx: usize, downgrade: bool) -> Self {
         let calls = p.calls;
         Self {
@@ -166,6 +184,9 @@ impl RandomDirector {
             downgrade,
             force_drop: false,
             reconnected_once: false,
+            probe: false,
+            probe_step: 0,
+            burst_done: false,
         }
     }
 
@@ -199,6 +220,18 @@ impl RandomDirector {
             self.broker.in_q2.clear();
         }
         self.broker.has_session = true;
+        if !self.benign && self.chance(self.p.p_bad_connack) {
+            // a success CONNACK whose properties the client must refuse (Receive Maximum 0,
+            // Maximum QoS 3, or an assigned client identifier longer than it can store)
+            let bad = match self.rng.gen_range(0..3) {
+                0 => Prop { id: 0x21, n: 0, s: vec![], t: vec![] },
+                1 => Prop { id: 0x24, n: 3, s: vec![], t: vec![] },
+                _ => Prop { id: 0x12, n: 0, s: vec![b'x'; 70], t: vec![] },
+            };
+            self.broker.outq.push_back(rc::connack(sp, 0, &[bad]));
+            self.broker.closed = true;
+            return;
+        }
         self.broker.connected = true;
         let mut props = Vec::new();
         let rm = if self.benign { 0 } else { let v = self.p.rm.clone(); self.pick(&v) };
@@ -643,6 +676,24 @@ impl Director for RandomDirector {
                 }
             };
         }
+        if self.chance(self.p.p_garbage) {
+            // bytes no conformant broker sends: each is malformed in one of the ways C08 lists
+            let g: Vec<u8> = match self.rng.gen_range(0..11) {
+                0 => vec![0x30, 0x80, 0x08],
+                1 => vec![0x30, 0xff, 0xff, 0xff, 0xff],
+                2 => vec![0x00, 0x00],
+                3 => vec![0x82, 0x00],
+                4 => vec![0x41, 0x02, 0x00, 0x01],
+                5 => vec![0x60, 0x02, 0x00, 0x01],
+                6 => vec![0x36, 0x05, 0x00, 0x01, 0x41, 0x00, 0x01],
+                7 => vec![0x30, 0x03, 0x00, 0x05, 0x41],
+                8 => vec![0x40, 0x06, 0x00, 0x01, 0x00, 0x00, 0xAA, 0xBB],
+                9 => vec![0x30, 0x05, 0x00, 0x02, 0xC0, 0x80, 0x00],
+                _ => vec![0xD0, 0x80, 0x00],
+            };
+            self.broker.closed = true;
+            return PendDec::Inject(g);
+        }
         if self.cur_op != "conn" && self.chance(self.p.p_inbound) {
             if let Some(pkt) = self.broker_publish() {
                 return PendDec::Inject(pkt);
@@ -685,6 +736,9 @@ impl Director for RandomDirector {
         if self.benign && result["err"] == "PacketTooLarge" {
             self.force_drop = true;
         }
+        if self.benign && op == "publish" && !result["err"].is_null() {
+            self.burst_done = true;
+        }
         self.last_pending = ' ';
         self.consecutive_pend = 0;
     }
@@ -717,6 +771,32 @@ impl Director for RandomDirector {
             if !view.live || self.force_drop {
                 self.force_drop = false;
                 return TopDec::DropConn;
+            }
+            if self.probe && self.probe_step < 6 {
+                // PUBREL sweep over identifiers 1..3: inject, then one poll to answer it
+                self.probe_step += 1;
+                if self.probe_step % 2 == 1 {
+                    let id = (self.probe_step / 2 + 1) as u16;
+                    return TopDec::Inject(rc::ack(6, id, 0, 2, &[]));
+                }
+                self.cur_op = "poll".into();
+                self.cur_cancel_safe = true;
+                return TopDec::Call(Step::Poll {});
+            }
+            if self.probe && !self.burst_done && self.probe_step < 6 + 10 {
+                self.probe_step += 1;
+                self.req_n += 1;
+                let n = self.req_n;
+                self.cur_op = "other".into();
+                return TopDec::Call(Step::Publish {
+                    qos: 1,
+                    topic: format!("probe/{n}").into_bytes(),
+                    payload: format!("probe{n}").into_bytes(),
+                    retain: false,
+                    props: vec![],
+                    corr: None,
+                    payload_fails: false,
+                });
             }
             self.drain_polls += 1;
             self.cur_op = "poll".into();
